@@ -96,7 +96,7 @@ type Kernel struct {
 	StrictQuiet bool
 	// Starve, if set, marks tasks that are scheduled only when nothing else (no other task, no due timer) can run:
 	// a stalled thread / slow node fault. Time still does not advance past them.
-	Starve func(t *Task) bool
+	Starve  func(t *Task) bool
 	Starved int
 }
 
@@ -321,6 +321,7 @@ func (k *Kernel) lock() { raceDisable(); k.mu.Lock() }
 func (k *Kernel) unlock() { k.mu.Unlock(); raceEnable() }
 
 // Go starts fn as a new task (harness actors). Must be called from the scheduler goroutine or a task.
+//
 //go:norace
 func (k *Kernel) Go(name, node string, fn func()) *Task {
 	tok := Spawn()
@@ -343,6 +344,7 @@ var waitingStates = []string{
 }
 
 // quiescentSnapshot reports whether every goroutine except the caller is in a waiting state.
+//
 //go:norace
 func (k *Kernel) quiescentSnapshot(buf *[]byte) bool {
 	k.Snapshots++
@@ -423,6 +425,7 @@ var snapBuf = make([]byte, 1<<20)
 
 // waitQuiescent returns when every task is parked in the kernel (fast path), or every goroutine in the process
 // is blocked (a task is blocked in a native operation: channel, WaitGroup, ...).
+//
 //go:norace
 func (k *Kernel) waitQuiescent() {
 	backoff := 40 * time.Microsecond
@@ -661,4 +664,17 @@ func (k *Kernel) Shutdown() {
 	}
 	k.active.Store(false)
 	kptr.Store(nil)
+}
+
+// Quiesce waits until every other goroutine of the process is blocked (used by the discrete-event simulator after
+// a step that may have started asynchronous helpers, e.g. the executer's publish goroutine).
+func Quiesce() {
+	k := &Kernel{schedGoid: goid()}
+	for i := 0; i < 200000; i++ {
+		if k.quiescentSnapshot(&snapBuf) {
+			return
+		}
+		runtime.Gosched()
+	}
+	panic("simrt.Quiesce: goroutines keep running")
 }
